@@ -423,11 +423,31 @@ def check_transform(fns, what, bad):
     stats = {'paths': 0}
     # ---- the recursive rebuild
     params = [a.arg for a in rt.args.args]
-    if len(params) != 2:
+    if len(params) < 2:
         raise AnalysisError(f'{what}: _transform signature changed')
     N, CB = ('PARAM', params[0]), ('PARAM', params[1])
     E = P.Enumerator()
     paths = E.function(rt)
+    if len(params) > 2:
+        # extra state handed down the recursion: the recursive calls are read without it, and the
+        # state itself must not decide which occurrences are transformed
+        def drop_extra(t):
+            if isinstance(t, tuple):
+                t = tuple(drop_extra(x) for x in t)
+                if t[:2] == ('CALL', ('VAR', rt.name)) and len(t) > 4:
+                    return t[:4]
+            return t
+        paths = [P.map_path(p, drop_extra) for p in paths]
+    # every occurrence is transformed: no table of nodes already seen (identity-keyed lookups)
+    for p in paths:
+        keyed = [x for s in p.steps for t in ([s[1]] if s[0] in ('T', 'X') else [s[3]] if s[0] == 'E' else [])
+                 if isinstance(t, tuple) for x in P.subterms(t) if x == ('CALL', ('VAR', 'id'), N)]
+        if keyed or (len(p.end) > 1 and isinstance(p.end[1], tuple)
+                     and any(x == ('CALL', ('VAR', 'id'), N) for x in P.subterms(p.end[1]))):
+            bad('C16-once', f'{what}: _transform keys a table by id(node): an object that occurs more than once is '
+                            f'handed to the callbacks only at its first occurrence (later occurrences receive the '
+                            f'first result), so callbacks do not run once per occurrence')
+            return stats
     stats['paths'] += len(paths)
     self_call = lambda arg: ('CALL', ('VAR', rt.name), arg, CB)
     kinds = set()
